@@ -138,6 +138,12 @@ class Ctx:
     def finish(self, level, coverage, assumptions=()):
         cov = dict(coverage)
         cov.update(self.extra_cov)
+        if isinstance(cov.get("samples"), list) and not cov["samples"]:
+            # (a run cut off before any successor state was stored)
+            sw = self.extra_cov.get("scale_sweep") or {}
+            cov["samples"] = [{"script": s_, "sizes": sw.get("sizes", [])[:5]}
+                              for s_ in sw.get("scripts", [])[:3]] or [
+                                  {"initial_states_only": True}]
         cov.setdefault("exhaustive", False)
         cov["distinct_violation_signatures"] = len(self.violations)
         cov["known_finding_signatures"] = sorted(self.known_hits)
